@@ -89,6 +89,9 @@ fn find_fn_in_items(items: &[syn::Item], t: &Target, out: &mut Vec<Found>) {
                         if trait_name.as_deref() != Some(tw.as_str()) {
                             continue;
                         }
+                    } else if trait_name.is_some() {
+                        // `Type :: f` names an inherent method; trait methods are `Trait for Type :: f`
+                        continue;
                     }
                     for ii in &im.items {
                         if let syn::ImplItem::Fn(f) = ii {
@@ -426,6 +429,45 @@ impl<'a> VisitMut for Lower<'a> {
                 self.note("R6 for-over-iterator -> indexed while over the stub's entry vector");
             }
         }
+        // R6': `for PAT in A..B BODY` -> `{ let mut __iN = A; let __endN = B; while __iN < __endN { let PAT = __iN; __iN += 1; BODY } }`
+        if let Expr::ForLoop(f) = e {
+            if let Expr::Range(r) = &*f.expr {
+                if let (Some(a), Some(b), syn::RangeLimits::HalfOpen(_)) = (&r.start, &r.end, &r.limits) {
+                    let n = self.forloops;
+                    self.forloops += 1;
+                    let ix = syn::Ident::new(&format!("__i{}", n), Span::call_site());
+                    let end = syn::Ident::new(&format!("__end{}", n), Span::call_site());
+                    let pat = (*f.pat).clone();
+                    let body_stmts = f.body.stmts.clone();
+                    let (a, b) = ((**a).clone(), (**b).clone());
+                    let ne: Expr = syn::parse_quote!({
+                        let mut #ix = #a;
+                        let #end = #b;
+                        while #ix < #end {
+                            let #pat = #ix;
+                            #ix += 1;
+                            #(#body_stmts)*
+                        }
+                    });
+                    *e = ne;
+                    self.note("R6' for-over-range -> while with explicit counter");
+                }
+            }
+        }
+        // R13: `match X { P if G => A, _ => B }` -> `match X { P => if G { A } else { B }, _ => B }`
+        // (Verus: no match guard together with a by-mutable-reference binding)
+        if let Expr::Match(m) = e {
+            if m.arms.len() == 2 && m.arms[0].guard.is_some() && m.arms[1].guard.is_none()
+                && matches!(m.arms[1].pat, syn::Pat::Wild(_))
+                && m.expr.to_token_stream().to_string().contains("& mut")
+            {
+                let g = m.arms[0].guard.take().unwrap().1;
+                let a = (*m.arms[0].body).clone();
+                let b = (*m.arms[1].body).clone();
+                m.arms[0].body = Box::new(syn::parse_quote!(if #g { #a } else { #b }));
+                self.note("R13 guarded arm + wildcard -> unguarded arm with inner if");
+            }
+        }
         if let Expr::Async(_) = e {
             die("unsupported construct: async block in target");
         }
@@ -468,7 +510,14 @@ impl<'a> VisitMut for Lower<'a> {
     }
 
     fn visit_type_mut(&mut self, t: &mut syn::Type) {
+        self.apply_type_rules(t);
         visit_mut::visit_type_mut(self, t);
+        self.apply_type_rules(t);
+    }
+}
+
+impl<'a> Lower<'a> {
+    fn apply_type_rules(&mut self, t: &mut syn::Type) {
         let mut guard = 0;
         'outer: loop {
             guard += 1;
